@@ -171,7 +171,10 @@ Proof.
 Qed.
 
 (* Set level.  A top-level attestation is skipped by validateAccess, so the inner
-   caveat must not be an attestation (nested attestations do deny, with ErrBadCaveat). *)
+   caveat must not be an attestation (nested attestations do deny, with ErrBadCaveat).
+   Without that side condition the set-level statement is false:
+     validate [CFlyioUserID 1] [AFlyio (with_org (blank_access 0 (mkT 0 0)) 5)] = None
+   although prohibits (CFlyioUserID 1) _ = Some E_badcav (checked with vm_compute). *)
 Lemma nested_denial_validate_access_l cs c' a :
   In c' (flat_all cs) -> is_attestation c' = false ->
   (exists e, prohibits c' a = Some e /\ eUnspec e = false) ->
